@@ -1,11 +1,11 @@
 """C02 — Coq theorems over coq/Model/Pool.v (lists regenerated from the source) + simulation of the real executor code with monitors."""
 from checks import simcommon as S
 
-FAMILIES = ['kill', 'fatal', 'latekill', 'resize', 'idlefatal']
+FAMILIES = ['kill', 'fatal', 'latekill', 'resize', 'idlefatal', 'cancelfail']
 PER_FAMILY = (300, 6000)
 
 
-PROOF = S.pool_proof('C02', ['C02_loud_before_any_broken_future', 'C02_broken_pool_refuses', 'C02_death_fails_everything_loudly', 'C02_manager_gone_means_all_settled', 'C02_unguarded_resize_refuted', 'C02_structure', 'C02_worker_never_leaves_silently', 'C02_error_names_every_exit_code', 'C02_exit_code_names', 'C02_exit_codes_structure', 'C02_every_registered_worker_is_watched'],
+PROOF = S.pool_proof('C02', ['C02_loud_before_any_broken_future', 'C02_broken_pool_refuses', 'C02_death_fails_everything_loudly', 'C02_manager_gone_means_all_settled', 'C02_unguarded_resize_refuted', 'C02_structure', 'C02_worker_never_leaves_silently', 'C02_error_names_every_exit_code', 'C02_exit_code_names', 'C02_exit_codes_structure', 'C02_every_registered_worker_is_watched', 'C02_failing_the_table_never_kills_the_manager'],
                     "detection itself (the sentinel of a dead worker becomes ready) is the OS's; the identity of the failed futures is Model/TokenFlow.v's; signal names are the OS's table (a parameter of the theorems)", extra_gen=['Worker', 'Exit', 'Resize'])
 
 
